@@ -145,7 +145,7 @@ Definition Order_correct_stmt := forall p n Ln Lphi, 1 < n ->
   0 < g /\ cong n (p ^ g) 1 /\ forall d, 0 < d -> cong n (p ^ d) 1 -> (g | d).
 Lemma order_correct : Order_correct_stmt.
 Proof.
-  intros p n Ln Lphi Hn phin Hphi HL Hcov Hgcd Heuler. cbn zeta.
+  intros p n Ln Lphi Hn phin Hphi HL Hcov Hgcd Heuler. cbn zeta. rewrite Forall_forall in HL.
   assert (HpA : forall e, cong n (p ^ e) ((p mod n) ^ e)) by (intros e; rewrite (cong_mod n p); reflexivity).
   unfold order. fold phin. set (A := p mod n) in *.
   destruct (Z.eqb_spec A 0) as [E0|E0].
@@ -159,14 +159,14 @@ Proof.
   { intros g Hg Hdiv Hag HNS. split; [exact Hg|]. split; [rewrite HpA; exact Hag|].
     intros d Hd Hpd. apply (order_minimal n A g Hg Hag); [|exact Hd|rewrite <- HpA; exact Hpd].
     intros q Hq Hqg Hc. apply (HNS q); [|split; assumption].
-    apply sortZ_In, Hcov; [exact Hq | exact (Z.divide_trans _ _ _ Hqg Hdiv)]. }
+    apply (proj2 (sortZ_In _ _)), Hcov; [exact Hq | exact (Z.divide_trans _ _ _ Hqg Hdiv)]. }
   assert (HL' : Forall (fun f => 1 < f) (sortZ Lphi)).
-  { apply Forall_forall. intros f Hf. apply sortZ_In in Hf. rewrite Forall_forall in HL. apply (HL f Hf). }
+  { apply Forall_forall. intros f Hf. apply (proj1 (sortZ_In _ _)) in Hf. apply (proj1 (HL f Hf)). }
   pose proof (order_find_spec n A phin (sortZ Lphi)) as Hfind.
   destruct (order_find A n phin (sortZ Lphi)) as [[g0 rest]|].
   - destruct Hfind as [pre [f [tl [Hsplit [Hrest [Hg0 [Hf1 Hpre]]]]]]].
     assert (Hfin : In f (sortZ Lphi)) by (rewrite Hsplit, Hrest; apply in_or_app; right; left; reflexivity).
-    assert (HfL : 1 < f /\ (f | phin)) by (rewrite Forall_forall in HL; apply HL, sortZ_In, Hfin).
+    assert (HfL : 1 < f /\ (f | phin)) by (apply HL, (proj1 (sortZ_In _ _)), Hfin).
     destruct HfL as [Hf2 [c Hc]].
     assert (Hg0eq : g0 = c) by (rewrite Hg0, Hc; apply Z.div_mul; lia).
     assert (Hg0pos : 0 < g0) by nia.
